@@ -217,6 +217,8 @@ func (bc *backendConn) run() {
 		var data []byte
 		if bc.beh.VelocityVer >= 0 {
 			data = []byte{byte(bc.beh.VelocityVer)}
+		} else if bc.beh.VelocityVer == -2 {
+			data = []byte{4, 4} // a body that is not exactly one byte: default version applies
 		}
 		if err := bc.send(&packet.LoginPluginMessage{ID: 7001, Channel: "velocity:player_info", Data: data}); err != nil {
 			bc.noteEOF()
